@@ -569,6 +569,19 @@ func runC09(w *World, r *Report) {
 			}
 		}
 	}
+	// an input without any declaration: the start rule can match nothing, then the only token is EOF and the comments in front
+	// of it are reachable through the start context's own start token alone
+	if len(w.G4.PRules) > 0 {
+		start := w.G4.PRules[0]
+		c := title(start.Name) + "Context"
+		if w.G4.Nullable(start.Name) {
+			if ff.selfLeft[c] {
+				r.pass(ruleAnch, c+": comments of an input without declarations are kept", "internal/parser/packet_dsl_formattor.go", "getHiddenLeft(ctx.GetStart()) on the start context itself")
+			} else {
+				r.fail(ruleAnch, c+": comments of an input without declarations are kept", "internal/parser/packet_dsl_formattor.go", "rule '"+start.Name+"' can match the empty input; its visitor does not ask for the comments in front of its own start token (the declarations' visitors do, but there are none then): a file of comments only is formatted to the empty text")
+			}
+		}
+	}
 	// closing braces: rules whose last literal is '}'
 	for _, pr := range w.G4.PRules {
 		last := ""
@@ -676,6 +689,7 @@ func runC09(w *World, r *Report) {
 	// ---- 4. error path ----
 	c09ErrorPath(w, r)
 	wholeInputRule(w, r, "C09")
+	errorsNotDiscarded(w, r, "C09")
 	c09CommentDelivery(w, r)
 	fmtCommentEndsLine(w, r, "C09")
 	r.assume("comments are only recoverable through hidden-channel queries at adjacent default-channel tokens (LINE_COMMENT -> channel(HIDDEN))")
@@ -812,6 +826,7 @@ func runC10(w *World, r *Report) {
 	r.floor(rulePos, 20)
 	c10SameLineAnchor(w, r, fns)
 	fmtCommentEndsLine(w, r, "C10")
+	c10TokenTextNotCut(w, r, "C10")
 	// the dsl text itself is not consulted after parsing
 	fmtFn := w.Parser.Func("FormatPacketDsl")
 	if fmtFn == nil {
